@@ -111,16 +111,25 @@ def run_case(spec, ctx):
         wv, dist = adv.worst_expectation(spec['pieces'], ref.sol, osgn)
         if wv is None or osgn * val - wv <= tol:
             ok = False
+        vw2 = spec
+        advb = None
+        if spec.get('amb2'):
+            vw2 = dict(spec)
+            vw2.update(spec['amb2'])
+            advb = DR.Adversary(vw2, rng=np.random.default_rng(78))
+            ok = ok and advb.exact
         for kind, pieces, sgn, rhs, tag in DR.all_requirements(spec):
+            use2 = tag.endswith('@amb2')
+            vw = vw2 if use2 else spec
             if kind == 'E':
-                w2, d2 = adv.worst_expectation(pieces, ref.sol, sgn)
+                w2, d2 = (advb if use2 else adv).worst_expectation(pieces, ref.sol, sgn)
                 if w2 is None or w2 - sgn * rhs > 1e-6 * (1 + abs(rhs)):
                     ok = False
             else:
                 for s in range(spec['S']):
                     al, be = DR.value_coeffs(spec, pieces[0], ref.sol, s)
-                    z, ex = S.maximize(spec['supports'][s], sgn * be, spec['nz'],
-                                       z0=np.array(spec['centers'][s]))
+                    z, ex = S.maximize(vw['supports'][s], sgn * be, spec['nz'],
+                                       z0=np.array(vw['centers'][s]))
                     if z is None or not ex or sgn * (al + be @ z) - sgn * rhs > 1e-6 * (1 + abs(rhs)):
                         ok = False
         if ok:
